@@ -1,2 +1,248 @@
-/- C16 driver (stub until the model exists) -/
-def main : IO Unit := pure ()
+/- C16 driver: machine definitions and call sequences in, trace/result/snapshot lines out
+(same format as props/C16/harness.cpp).  Uses the model with the stop() repair (`fix = true`). -/
+import TboxModel.Util
+import TboxModel.C16.Model
+open Tbox.Util Tbox.C16
+
+/-- deepest nesting the protocol accepts (levels of sub-machines below the root) -/
+def maxDepth : Nat := 3
+
+/-- strict decimal: optional '-', 1..9 digits -/
+def int? (s : String) : Option Int :=
+  let cs := s.toList
+  let (neg, ds) := match cs with
+    | '-' :: r => (true, r)
+    | r => (false, r)
+  if ds.isEmpty || ds.length > 9 || !ds.all Char.isDigit then none
+  else
+    let v : Nat := ds.foldl (fun a c => a * 10 + (c.toNat - 48)) 0
+    some (if neg then - (Int.ofNat v) else Int.ofNat v)
+
+def nat? (s : String) : Option Nat := do
+  let i ← int? s
+  if i < 0 || s.startsWith "-" then none else some i.toNat
+
+def sop? (t : String) : Option SOp :=
+  match t with
+  | "o" => some .obs
+  | "s" => some (.call .start)
+  | "x" => some (.call .stop)
+  | "r" => some (.call .restart)
+  | _ => if t.startsWith "e" then (int? (t.drop 1).toString).map (fun e => .call (.run e)) else none
+
+/-- "." = empty script; else comma separated ops -/
+def script? (s : String) : Option Script :=
+  if s == "." then some [] else (s.splitOn ",").mapM sop?
+
+/-- "-" = nullptr -/
+def probe? (s : String) : Option (Option Script) :=
+  if s == "-" then some none else (script? s).map some
+
+def intList? (s : String) : Option (List Int) :=
+  if s == "" then some [] else (s.splitOn "|").mapM int?
+
+/-- "-" | "G<ev>|<ev>…/<script>" -/
+def guard? (s : String) : Option (Option Guard) :=
+  if s == "-" then some none
+  else if s.startsWith "G" then
+    match (s.drop 1).toString.splitOn "/" with
+    | [evs, sc] => do
+        let l ← intList? evs
+        let sc ← script? sc
+        pure (some { trueOn := l, script := sc })
+    | _ => none
+  else none
+
+def pair? (s : String) : Option (String × Int) :=
+  match s.splitOn ">" with
+  | [a, b] => (int? b).map (fun v => (a, v))
+  | _ => none
+
+/-- "<e>><t>|…|*><d>" (the default entry is mandatory and last) -/
+def table? (s : String) : Option (List (Int × Int) × Int) := do
+  let ps ← (s.splitOn "|").mapM pair?
+  match ps.reverse with
+  | ("*", d) :: rest =>
+      let tbl ← rest.reverse.mapM (fun p => (int? p.1).map (fun e => (e, p.2)))
+      pure (tbl, d)
+  | _ => none
+
+abbrev Raw := MachOf Unit Nat
+
+def StateDef.withSub {A B : Type} (s : StateDef A) (x : Option B) : StateDef B :=
+  { id := s.id, enter := s.enter, exit := s.exit, routes := s.routes, events := s.events, dflt := s.dflt, sub := x }
+
+/-- flat pool → tree of depth ≤ n (fails when nested deeper) -/
+def conv : (n : Nat) → List Raw → Nat → Option (Mach n)
+  | 0, pool, k => do
+      let r ← pool[k]?
+      let sts ← r.states.mapM (fun s => match s.sub with
+        | none => some (StateDef.withSub s (none : Option Empty))
+        | some _ => none)
+      pure ({ init := r.init, states := sts, cb := r.cb, rt := {} } : MachOf Rt Empty)
+  | n + 1, pool, k => do
+      let r ← pool[k]?
+      let sts ← r.states.mapM (fun s => match s.sub with
+        | none => some (StateDef.withSub s (none : Option (Mach n)))
+        | some j => (conv n pool j).map (fun x => StateDef.withSub s (some x)))
+      pure ({ init := r.init, states := sts, cb := r.cb, rt := {} } : MachOf Rt (Mach n))
+
+structure DS where
+  pool : List Raw := []
+  consumed : List Nat := []
+  cur : Option Nat := none
+  root : Option (Mach maxDepth) := none
+
+def b01 (b : Bool) : String := if b then "1" else "0"
+
+def viewStr (v : View) : String :=
+  s!"{v.curr},{v.last},{v.next},{b01 v.running},{b01 v.term}"
+
+def pathStr (p : List StateId) : String :=
+  if p.isEmpty then "/" else String.join (p.map fun s => "/" ++ toString s)
+
+def callStr : Call → String
+  | .start => "start" | .stop => "stop" | .restart => "restart" | .run e => s!"run:{e}"
+
+/-- printed events: callbacks that exist, and what their bodies did -/
+def evStr (ev : Ev) : Option String :=
+  let p := "P T " ++ pathStr ev.path ++ " "
+  match ev.kind with
+  | .enter s e true => some (p ++ s!"enter {s} {e}")
+  | .exit s e true => some (p ++ s!"exit {s} {e}")
+  | .action s (some i) e true => some (p ++ s!"act {s} {i} {e}")
+  | .action s none e true => some (p ++ s!"act {s} h {e}")
+  | .guard s i e r => some (p ++ s!"guard {s} {i} {e} {b01 r}")
+  | .handler s (some k) e r => some (p ++ s!"hdl {s} {k} {e} {r}")
+  | .handler s none e r => some (p ++ s!"hdl {s} * {e} {r}")
+  | .notify a b e true => some (p ++ s!"chg {a} {b} {e}")
+  | .obs v => some (p ++ "obs " ++ viewStr v)
+  | .call c r v w => some (p ++ s!"call {callStr c} {b01 r} {viewStr v} {viewStr w}")
+  | .unmodelled => some (p ++ "UNMODELLED")
+  | _ => none
+
+section
+variable {Sub : Type}
+def snapLevel (subSnap : List StateId → Sub → List String) (path : List StateId) (m : MachOf Rt Sub) : List String :=
+  (pathStr path ++ ":" ++ viewStr m.rt.view) ::
+    m.states.flatMap (fun s => match s.sub with
+      | some x => subSnap (path ++ [s.id]) x
+      | none => [])
+end
+
+def snap : (n : Nat) → List StateId → Mach n → List String
+  | 0 => snapLevel (fun _ x => x.elim)
+  | n + 1 => snapLevel (snap n)
+
+def snapLine (m : Mach maxDepth) : String := "P S " ++ " ".intercalate (snap maxDepth [] m)
+
+def evTag (ev : Ev) : List String :=
+  let d := s!"depth{ev.path.length}"
+  match ev.kind with
+  | .enter s _ has => [d, if s == 0 then (if has then "enter-user0" else "enter-term") else "enter"]
+  | .exit .. => ["exit"]
+  | .action _ (some _) _ has => [if has then "route-action" else "route-noaction"]
+  | .action _ none _ _ => ["handler-go"]
+  | .guard _ i _ r => [if r then "guard-true" else "guard-false", if i > 0 then "guard-later-route" else "guard-first-route"]
+  | .handler _ k _ r => [if k.isSome then "hdl-specific" else "hdl-default", if r == -1 then "hdl-stay" else "hdl-target"]
+  | .notify a b _ _ => [if a == b then "self-transition" else "chg"]
+  | .obs v => [if v.curr == -1 then "obs-in-action" else if v.next != -1 then "obs-in-exit" else "obs"]
+  | .call .. => ["reentrant-call"]
+  | .unmodelled => ["UNMODELLED"]
+
+def callTags (c : Call) (before : View) (res : Bool) (tr : Trace) : List String :=
+  let deepExit := tr.any (fun ev => ev.path.length > 0 && match ev.kind with | .exit .. => true | _ => false)
+  let c1 := match c with
+    | .start => [if res then "start-ok" else if before.running then "start-again" else "start-fail"]
+    | .stop => [if !before.running then "stop-idle" else if deepExit then "stop-active-sub" else "stop"]
+    | .restart => [if before.running then "restart-running" else "restart-idle", if deepExit then "stop-active-sub" else "restart"]
+    | .run _ => [if !before.running then "run-idle" else if res then "run-true" else "run-false",
+                 if deepExit && before.running then "sub-terminated-or-left" else "run"]
+  (c1 ++ tr.flatMap evTag).eraseDups
+
+def newRaw : Raw := { init := -1, states := [], cb := none, rt := () }
+
+def setAt (l : List Raw) (k : Nat) (r : Raw) : List Raw := l.set k r
+
+/-- one definition line on the machine under construction `k` -/
+def defLine (s : DS) (k : Nat) (r : Raw) (ws : List String) : Option (DS × List String) :=
+  let put (r' : Raw) : DS := { s with pool := setAt s.pool k r' }
+  match ws with
+  | ["st", sid, en, ex] => do
+      let sid ← int? sid; let en ← probe? en; let ex ← probe? ex
+      if sid < 0 then none else
+      let (r', ok) := Build.newState r sid en ex
+      pure (put r', ["P st " ++ b01 ok])
+  | ["rt", src, ev, dst, g, a] => do
+      let src ← int? src; let ev ← int? ev; let dst ← int? dst; let g ← guard? g; let a ← probe? a
+      let (r', ok) := Build.addRoute r src { ev := ev, to := dst, guard := g, action := a }
+      pure (put r', ["P rt " ++ b01 ok])
+  | ["ev", sid, ev, tbl, sc] => do
+      let sid ← int? sid; let ev ← int? ev; let (tbl, d) ← table? tbl; let sc ← script? sc
+      let (r', ok) := Build.addEvent r sid ev { tbl := tbl, dflt := d, script := sc }
+      pure (put r', ["P ev " ++ b01 ok])
+  | ["init", sid] => do
+      let sid ← int? sid
+      pure (put (Build.setInitState r sid), ["P init"])
+  | ["cb", sc] => do
+      let sc ← script? sc
+      pure (put (Build.setStateChangedCallback r sc), ["P cb"])
+  | ["sub", sid, j] => do
+      let sid ← int? sid; let j ← nat? j
+      if j ≥ s.pool.length || j == k || s.consumed.contains j then none else
+      let (r', ok) := Build.setSubStateMachine r sid j
+      let s' := put r'
+      pure ({ s' with consumed := if ok then j :: s.consumed else s.consumed }, ["P sub " ++ b01 ok])
+  | ["end"] => pure ({ s with cur := none }, [s!"P end {k}"])
+  | _ => none
+
+def callLine (m : Mach maxDepth) (c : Call) : Mach maxDepth × List String :=
+  let before := m.rt.view
+  let r := applyCall true maxDepth m c
+  let res := match c with | .stop => "-" | _ => b01 r.2.1
+  (r.1, ["B " ++ " ".intercalate (callTags c before r.2.1 r.2.2)] ++ r.2.2.filterMap evStr ++ ["P R " ++ res, snapLine r.1])
+
+def parseCall (ws : List String) : Option Call :=
+  match ws with
+  | ["start"] => some .start
+  | ["stop"] => some .stop
+  | ["restart"] => some .restart
+  | ["run", e] => (int? e).map .run
+  | _ => none
+
+def stepLine (s : DS) (line : String) : DS × List String :=
+  let ws := words line
+  match ws with
+  | [] => (s, [])
+  | "case" :: _ => ({}, [line.trimAscii.toString])
+  | _ =>
+    match s.root with
+    | some m =>
+      match parseCall ws with
+      | some c => let (m', out) := callLine m c; ({ s with root := some m' }, out)
+      | none => (s, ["bad-op"])
+    | none =>
+      match s.cur with
+      | some k =>
+        match s.pool[k]? with
+        | none => (s, ["bad-op"])
+        | some r =>
+          match defLine s k r ws with
+          | some (s', out) => (s', out)
+          | none => (s, ["bad-op"])
+      | none =>
+        match ws with
+        | ["mach"] =>
+            let k := s.pool.length
+            ({ s with pool := s.pool ++ [newRaw], cur := some k }, [s!"P mach {k}"])
+        | ["go", k] =>
+            match nat? k with
+            | none => (s, ["bad-op"])
+            | some k =>
+              if k ≥ s.pool.length || s.consumed.contains k then (s, ["bad-op"])
+              else match conv maxDepth s.pool k with
+                | none => (s, ["bad-op"])
+                | some m => ({ s with root := some m }, ["P go", snapLine m])
+        | _ => (s, ["bad-op"])
+
+def main : IO Unit := runDriver ({} : DS) stepLine
